@@ -469,7 +469,7 @@ def job_stream(pid, ctx, n_random=None):
     n_random = n_random or (60000 if ctx["thorough"] else 12000)
     s = core.StreamResult("job-sim")
     d = core.WORK / pid / "job-sim"; d.mkdir(parents=True, exist_ok=True)
-    scripts = job_scripts(ctx["seed"], n_random, 3 if ctx["thorough"] else 2)
+    scripts = core.corpus("job-sim") + job_scripts(ctx["seed"], n_random, 3 if ctx["thorough"] else 2)
     # corpus first
     corpus = core.VERIF / "corpus" / "job"
     if corpus.exists():
@@ -629,7 +629,7 @@ def c13_streams(ctx):
     n = 40000 if ctx["thorough"] else 8000
     s = core.StreamResult("fs-worker")
     d = core.WORK / ctx.get("pid13", "C13") / "fs-worker"; d.mkdir(parents=True, exist_ok=True)
-    scripts = fs_scripts(ctx["seed"], n)
+    scripts = core.corpus("fs-worker") + fs_scripts(ctx["seed"], n)
     (d / "cases.txt").write_text("\n".join(scripts) + "\n")
     k = 8
     chunks = [scripts[i::k] for i in range(k)]
@@ -682,7 +682,7 @@ def c15_streams(ctx):
     r = random.Random(ctx["seed"] * 31 + 15)
     s = core.StreamResult("errors")
     d = core.WORK / "C15" / "errors"; d.mkdir(parents=True, exist_ok=True)
-    cases = []
+    cases = core.corpus("errors")
     for i in range(n):
         cap = r.choice([1, 1, 2, 64])
         nev = r.randint(1, 10)
@@ -981,7 +981,7 @@ def c08_streams(ctx):
     n = 15000 if ctx["thorough"] else 3000
     s = core.StreamResult("quit-sim")
     d = core.WORK / "C08" / "quit-sim"; d.mkdir(parents=True, exist_ok=True)
-    cases = quit_cases(ctx["seed"], n)
+    cases = core.corpus("quit-sim") + quit_cases(ctx["seed"], n)
     (d / "cases.txt").write_text("\n".join(cases) + "\n")
     k = 12
     chunks = [cases[i::k] for i in range(k)]
@@ -1289,7 +1289,7 @@ def c05_streams(ctx, name="cli-action", pid="C05", gen=None, oracle=None):
     gen = gen or c05_cases; oracle = oracle or c05_oracle
     s = core.StreamResult(name)
     d = core.WORK / pid / name; d.mkdir(parents=True, exist_ok=True)
-    cases = gen(ctx["seed"], n)
+    cases = core.corpus(name) + gen(ctx["seed"], n)
     (d / "cases.txt").write_text("\n".join(cases) + "\n")
     k = 12
     chunks = [cases[i::k] for i in range(k)]
